@@ -323,6 +323,94 @@ def rederive(n0: int, a: int, how: int, own: bool, pre: bool, refs: bool) -> boo
                  "old instance handle raises the deleted-object error or reflects the current definitions", lambda: oldi)
 
 
+FB_EDITS = ["FB.new_space('NC') with a cells", "del FB.FC", "FB.fb.formula changed", "FB.FC.fc.formula changed", "FB.new_cells('extra')", "FB.FC.new_cells('e2')",
+            "FB.FC.y = v (reference of the child space)", "del FB.fb"]
+
+
+@harness
+def formula_base(v: int, how: int, pre: bool) -> bool:
+    """Instances built from a space that the parameter formula NAMES as base ({'base': FB}), several alive at once: after any
+    edit of FB's tree every instance - old handle or re-created - reflects the current definitions of FB."""
+    how, pre = pick(how, 0, len(FB_EDITS) - 1), pickb(pre)
+    with notrace():
+        m = new_model("FBm")
+        FB = m.new_space("FB")
+        FB.new_cells("fb", formula="lambda: n + 1")
+        FC = FB.new_space("FC")
+        FC.y = 0
+        FC.new_cells("fc", formula="lambda: n + 2 + y")
+        PF = m.new_space("PF", formula="lambda n: {'base': FBref}")
+        PF.FBref = FB
+    label("%s; %s" % (FB_EDITS[how], "values computed before" if pre else "instances only created"))
+    olds = [PF[j] for j in range(3)]
+    if pre:
+        for j in range(3):
+            r0 = call(lambda: (olds[j].cells["fb"](), olds[j].spaces["FC"].cells["fc"]()))
+            if not check(r0[0] == "ok" and r0[1] == (j + 1, j + 2), "instance built from the named base", lambda: r0):
+                return False
+    fb, fc, y = 1, 2, 0
+    extra = e2 = nc = has_fc = None
+    has_fc, has_fb = True, True
+    if how == 0:
+        FB.new_space("NC").new_cells("nc", formula="lambda: n + 9")
+        nc = 9
+    elif how == 1:
+        del FB.FC
+        has_fc = False
+    elif how == 2:
+        FB.cells["fb"].formula = "lambda: n + 11"
+        fb = 11
+    elif how == 3:
+        FB.FC.cells["fc"].formula = "lambda: n + 12 + y"
+        fc = 12
+    elif how == 4:
+        FB.new_cells("extra", formula="lambda: fb() * 10")
+        extra = True
+    elif how == 5:
+        FB.FC.new_cells("e2", formula="lambda: fc() * 100")
+        e2 = True
+    elif how == 6:
+        FB.FC.y = v
+        y = v
+    elif how == 7:
+        del FB.fb
+        has_fb = False
+    for j in range(3):
+        for which, inst in (("re-requested", None), ("old handle", olds[j])):
+            sp = PF[j] if inst is None else inst
+
+            def probe():
+                out = {"cells": sorted(sp.cells), "spaces": sorted(sp.spaces)}
+                if has_fb:
+                    out["fb"] = sp.cells["fb"]()
+                if has_fc:
+                    out["fc"] = sp.spaces["FC"].cells["fc"]()
+                if extra:
+                    out["extra"] = sp.cells["extra"]()
+                if e2:
+                    out["e2"] = sp.spaces["FC"].cells["e2"]()
+                if nc:
+                    out["nc"] = sp.spaces["NC"].cells["nc"]()
+                return out
+            r = call(probe)
+            if r[0] == "err" and r[1] == "DeletedObjectError" and inst is not None:
+                continue
+            want = {"cells": sorted((["fb"] if has_fb else []) + (["extra"] if extra else [])), "spaces": sorted((["FC"] if has_fc else []) + (["NC"] if nc else []))}
+            if has_fb:
+                want["fb"] = j + fb
+            if has_fc:
+                want["fc"] = j + fc + y
+            if extra:
+                want["extra"] = (j + fb) * 10
+            if e2:
+                want["e2"] = (j + fc + y) * 100
+            if nc:
+                want["nc"] = j + 9
+            if not check(r[0] == "ok" and r[1] == want, "instance PF[%d] (%s) reflects the current definitions of the named base" % (j, which), lambda: (r, want)):
+                return False
+    return True
+
+
 NS, NE = len(SIGS), len(EDITS)
 QUERIES = [
     Query("itemspace", itemspace, pre=["0 <= sig < %d" % NS, "0 <= a <= 1", "0 <= b <= 1", "0 <= s1 < 5", "0 <= s2 < 5", "0 <= ed < %d" % NE],
@@ -345,4 +433,10 @@ QUERIES.append(
                   [dict(n0=7, a=0, how=h_, own=o_, pre=True, refs=False) for h_ in (0, 1, 2, 3, 5) for o_ in (False, True)],
           bounds=lambda tier: {"edits": REDERIVE, "space": "RS(RB1(RB0), RB2) parametric, all members derived (optionally one own cells)", "argument": "{0,1}", "reference value": "unbounded symbolic int"},
           outside=["deeper base chains"]))
+QUERIES.append(
+    Query("formula_base", formula_base, pre=["0 <= how < %d" % len(FB_EDITS)],
+          partitions=lambda tier, seed: [dict(how=h_) for h_ in range(len(FB_EDITS))],
+          natives=[dict(v=5, how=h_, pre=p_) for h_ in range(len(FB_EDITS)) for p_ in (True,)] + [dict(v=5, how=1, pre=False), dict(v=5, how=0, pre=False)],
+          bounds=lambda tier: {"edits": FB_EDITS, "instances": "PF[0], PF[1], PF[2] alive at once, old handles and re-requested ones", "reference value": "unbounded symbolic int"},
+          outside=["bases lists returned by the formula", "nested parametric spaces below a named base"]))
 BUDGET = {"quick": 420, "thorough": 1200}
